@@ -25,6 +25,28 @@ def scripted_comm(chunks, frame_cls=None):
     return comm, script
 
 
+def run_real_routed(chunks, has_dev):
+    """(response queue, stream queue) contents after the receive thread processed the scripted reads"""
+    comm, script = scripted_comm(chunks)
+    comm._dev = object() if has_dev else None
+    for _ in range(200000):
+        had = bool(script)
+        before = comm._prev_read
+        n = comm._q.qsize() + comm._q_stream.qsize()
+        comm._recv_thread()
+        if not had and not script and comm._prev_read == before and comm._q.qsize() + comm._q_stream.qsize() == n:
+            break
+    out = []
+    for q in (comm._q, comm._q_stream):
+        fr = []
+        while not q.empty():
+            f = q.get_nowait()
+            fr.append((int(f.fid), bytes(f.data)))
+        out.append(fr)
+    comm._dev = None
+    return out
+
+
 def run_real(chunks, frame_cls=None, limit=200000):
     comm, script = scripted_comm(chunks, frame_cls)
     frames = []
@@ -126,6 +148,10 @@ class C03(Prop):
         for _ in range(1500 if T else 300):
             s = gen_stream(rng, 6)
             yield self.line(g.random_chunking(rng, s) or [b""]), "random"
+        # routing of the delivered frames to the response / stream queue (with and without a known device)
+        for _ in range(300 if T else 60):
+            s = b"".join(g.valid_frame(rng, fid=rng.choice([1, 1, 1, 2, 3, 4, 4, 5]), maxlen=5) for _ in range(rng.randrange(1, 7)))
+            yield f"reasm route {rng.randrange(2)} " + ",".join(hexs(c) for c in (g.random_chunking(rng, s) or [b""])), "route"
         # leading residues (0..3 header bytes, then the rest later)
         for _ in range(100 if T else 20):
             f1, f2 = g.valid_frame(rng), g.valid_frame(rng)
@@ -134,13 +160,28 @@ class C03(Prop):
                 yield self.line([pre + f1[:k], b"", f1[k:] + f2]), "residue"
 
     def impl(self, line):
-        chunks = [unhex(c) for c in line.split(" ")[2].split(",")]
+        t = line.split(" ")
+        if t[1] == "route":
+            a, b = run_real_routed([unhex(c) for c in t[3].split(",")], t[2] == "1")
+            return fstr(a) + " / " + fstr(b)
+        chunks = [unhex(c) for c in t[2].split(",")]
         return fstr(run_real(chunks))
 
     def nontrivial(self, line, out):
-        return out != "ok -" and "," in line.split(" ")[2]
+        return out != "ok -" and "," in line.split(" ")[-1]
 
     def oracle(self, line, impl_out=None):
+        t = line.split(" ")
+        if t[1] == "route":
+            chunks = [unhex(c) for c in t[3].split(",")]
+            a, b = run_real_routed(chunks, t[2] == "1")
+            want = ref_scan(b"".join(chunks))
+            wa = [f for f in want if f[0] != 1 and not (t[2] == "0" and f[0] == 4)]
+            wb = [f for f in want if f[0] == 1]
+            if (a, b) != (wa, wb):
+                return {"key": "routing", "what": "frames are not routed in arrival order to the response / stream queue",
+                        "expected": fstr(wa) + " / " + fstr(wb), "observed": fstr(a) + " / " + fstr(b)}
+            return None
         chunks = [unhex(c) for c in line.split(" ")[2].split(",")]
         got = run_real(chunks)
         want = ref_scan(b"".join(chunks))
